@@ -353,7 +353,7 @@ def coq_eval(name, imports, exprs, chunk=400, timeout=900):
 
     def launch(item):
         path, n, ci = item
-        return subprocess.Popen(['timeout', str(timeout), 'coqc'] + COQFLAGS + [path],
+        return subprocess.Popen(['bash', '-c', 'ulimit -s unlimited 2>/dev/null; exec timeout %d coqc "$@"' % timeout, 'coqc'] + COQFLAGS + [path],
                                 stdout=subprocess.PIPE, stderr=subprocess.STDOUT, text=True, errors='replace')
     pending = list(files)
     running = []
